@@ -55,6 +55,16 @@ func (c RawConfiguration) Equal(b RawConfiguration) bool {
 	return true
 }
 
+// contains reports whether the configuration has a node with the given ID.
+func (c RawConfiguration) contains(id uint32) bool {
+	for _, n := range c {
+		if n.id == id {
+			return true
+		}
+	}
+	return false
+}
+
 func (c RawConfiguration) getMsgID() uint64 {
 	return c[0].mgr.getMsgID()
 }
